@@ -129,8 +129,16 @@ class Purity(object):
             return self.text_expr(v.body, at_node, depth) and self.text_expr(v.orelse, at_node, depth)
         return False
 
-    def pure(self, e, at_node):
+    def pure(self, e, at_node, _inlined=False):
         """evaluating e after the open cannot raise."""
+        if not _inlined and any(isinstance(y, ast.Call) for y in ast.walk(e)):
+            # calls of expression-like private helpers are judged by what they compute
+            from ..symtext import Expander
+            try:
+                e2 = Expander(self.func, self.g, inline=self.prog, expand_names=False).expand(e, at_node)
+            except Exception:
+                e2 = e
+            return self.pure(e2, at_node, True)
         if isinstance(e, ast.Constant):
             return True
         if isinstance(e, ast.Name):
